@@ -63,10 +63,23 @@ Definition Assertion (v : option string) : cred := MkCred None "" "" (Some v).
 
 Definition challenge := (bool * string)%type.   (* (method is S256, challenge) *)
 
+(* What else an authorization request may carry.  x_hint: an id_token_hint; its content is the
+   outcome of op.VerifyIDTokenHint: Some sub = verifies (valid, or merely expired) for subject
+   sub - that subject is handed to Storage.CreateAuthRequest -, None = does not verify
+   (login_required, no request).  x_prompt: the prompt values; `none` never yields a request
+   (invalid together with other values, login_required from the storage when alone). *)
+Record auth_extra := { x_hint : option (option string); x_prompt : list string }.
+Definition no_extra : auth_extra := {| x_hint := None; x_prompt := [] |}.
+Definition hinted_sub (x : auth_extra) : string :=
+  match x_hint x with Some (Some sub) => sub | _ => "" end.
+Definition extra_ok (x : auth_extra) : bool :=
+  negb (string_in "none" (x_prompt x)) && match x_hint x with Some None => false | _ => true end.
+
 Record areq := {
   q_id : nat; q_client : string; q_uri : string; q_scopes : list string;
   q_nonce : string; q_chal : option challenge;
-  q_done : bool; q_sub : string; q_auth : nat
+  q_done : bool; q_sub : string; q_auth : nat;
+  q_extra : auth_extra
 }.
 
 Record rtok := {
@@ -128,7 +141,7 @@ Inductive smethod :=
 | SM_SigningKey | SM_GetPrivateClaimsFromScopes | SM_DeleteAuthRequest.
 
 Inductive op :=
-| Authorize (client uri : string) (scopes : list string) (nonce : string) (chal : option challenge)
+| Authorize (client uri : string) (scopes : list string) (nonce : string) (chal : option challenge) (x : auth_extra)
 | Login (req : nat) (sub : string) (stamp : nat)
 | Callback (req : nat)
 | TokenCode (pl : place) (f : option smethod) (c : cred) (code : option nat) (uri ver : string)
@@ -241,14 +254,15 @@ Definition secret_ok (c : client) (sec : string) : option string :=
   else if String.eqb sec (c_secret c) then None else Some E_client.
 
 (* ---------- authorize / login / callback (same code on both routers) ---------- *)
-Definition do_authorize (s : st) cl uri scopes nonce chal : st * out :=
+Definition do_authorize (s : st) cl uri scopes nonce chal (x : auth_extra) : st * out :=
   match find_client cf cl with
   | None => (s, OAuthz None)
   | Some c =>
-      if string_in uri (c_redirects c) && negb (is_nil scopes) then
+      if string_in uri (c_redirects c) && negb (is_nil scopes) && extra_ok x then
         let n := S (next s) in
         ({| reqs := {| q_id := n; q_client := cl; q_uri := uri; q_scopes := scopes; q_nonce := nonce;
-                       q_chal := chal; q_done := false; q_sub := ""; q_auth := 0 |} :: reqs s;
+                       q_chal := chal; q_done := false; q_sub := hinted_sub x; q_auth := 0;
+                       q_extra := x |} :: reqs s;
             codes := codes s; rtoks := rtoks s; next := n; ncode := ncode s; norefresh := norefresh s |}, OAuthz (Some n))
       else (s, OAuthz None)
   end.
@@ -256,7 +270,8 @@ Definition do_authorize (s : st) cl uri scopes nonce chal : st * out :=
 Definition set_login (n : nat) (sub : string) (stamp : nat) (q : areq) : areq :=
   if Nat.eqb (q_id q) n then
     {| q_id := q_id q; q_client := q_client q; q_uri := q_uri q; q_scopes := q_scopes q;
-       q_nonce := q_nonce q; q_chal := q_chal q; q_done := true; q_sub := sub; q_auth := stamp |}
+       q_nonce := q_nonce q; q_chal := q_chal q; q_done := true; q_sub := sub; q_auth := stamp;
+       q_extra := q_extra q |}
   else q.
 
 Definition do_login (s : st) n sub stamp : st * out :=
@@ -505,7 +520,7 @@ Definition code_fault (H : string -> string) (cf : cfg) (f : smethod) (r : route
 (* ---------- one step ---------- *)
 Definition step (H : string -> string) (cf : cfg) (r : router) (s : st) (o : op) : st * out :=
   match o with
-  | Authorize cl uri scopes nonce chal => do_authorize cf s cl uri scopes nonce chal
+  | Authorize cl uri scopes nonce chal x => do_authorize cf s cl uri scopes nonce chal x
   | Login n sub stamp => do_login s n sub stamp
   | Callback n => do_callback s n
   | TokenCode pl f cr code uri ver =>
